@@ -116,6 +116,13 @@ class Case:
             payload = (ipv8_payload if shape == "ipv8" else bt_payload)(size, c["seed"] & 0xFF)
             dest = tuple(c.get("dest") or ("5.5.5.5", 5555))
             outside = ("7.7.7.7", 7777)
+            nested = kind == "data_in" and bool(c.get("nested")) and not fault
+            if nested:
+                # the outside host answers with a look-alike of a tunnelled DATA message: the tunnel overlay's own prefix,
+                # message id 1, the originator's circuit id, destination 0.0.0.0:0 and an origin of its choice. The exit
+                # lets own-prefix packets in; the originator must not hand the inner bytes to the application
+                payload = w.prefix + b"\x01" + struct.pack(">I", circuit.circuit_id) + ref_addr(("0.0.0.0", 0)) + \
+                    ref_addr(("198.51.100.7", 6881)) + bt_payload(max(size, 8), c["seed"] & 0xFF)
             allowed = len(payload) >= 2 and (payload[:1] == b"d" and payload[-1:] == b"e" or
                                              (len(payload) >= 23 and payload[:2] == b"\x00\x02"))
             # for the inbound direction the exit socket must exist: an opener packet goes out first
@@ -194,12 +201,12 @@ class Case:
                 for data, addr in t.sent[sent0.get(id(t), 0):]:
                     emitted.append((data, tuple(addr)))
             honest_out = {(payload, dest)} if kind == "data_out" else set()
-            honest_in = {(circuit.circuit_id, outside, payload)} if kind == "data_in" else set()
+            honest_in = {(circuit.circuit_id, outside, payload)} if kind == "data_in" and not nested else set()
             escaped = [(type(e).__name__, str(e)[:60]) for (_, _, _, e) in w.net.escaped]
 
             body_hit = state["hit"] is not None and (state["hit"][0] in ("splice", "swapcid") or
                                                      state["hit"][1] >= CELL_HDR)
-            info["cls"] = "%dhop/%s/%s/%s" % (hops, kind, size_class(size),
+            info["cls"] = "%dhop/%s/%s/%s" % (hops, kind + ("_nested" if nested else ""), size_class(size),
                                               "none" if not fault else fault["type"])
             info["nontrivial"] = (size >= 8 and not fault) or body_hit or bool(fault and fault["type"] == "inject")
             info["desc"] = (hops, kind, size_class(size), None if not fault else
@@ -261,7 +268,11 @@ class Case:
                     self.fail("I1", "outbound", f"exit emitted {[(d[:24], a) for d, a in emitted]} for a sent payload of "
                                                 f"{len(payload)} bytes to {dest} (policy allows: {allowed})")
             elif kind == "data_in":
-                want_in = [(circuit.circuit_id, outside, payload)] if allowed else []
+                want_in = [(circuit.circuit_id, outside, payload)] if allowed and not nested else []
+                if nested and got_raw:
+                    self.fail("I3", "inbound:nested_data", f"the application was handed {got_raw[0][2][:24]!r} attributed to "
+                                                           f"{got_raw[0][1]}; the only outside sender was {outside} and it sent "
+                                                           f"a look-alike DATA message, not these bytes")
                 if got_raw != want_in:
                     self.fail("I1", "inbound", f"originator got {[(g[0], g[1], g[2][:24]) for g in got_raw]} for an outside "
                                                f"datagram of {len(payload)} bytes from {outside}")
@@ -566,6 +577,7 @@ def _strategy():
         "kind": st.sampled_from(["data_out", "data_out", "data_in", "data_in", "ping", "test"]),
         "size": size,
         "shape": st.sampled_from(["bt", "ipv8"]),
+        "nested": st.sampled_from([0, 0, 1]),
         "dest": st.sampled_from([["5.5.5.5", 5555], ["2001:db8::5", 5555], ["5.6.7.8", 1]]),
         "resp": st.integers(0, 600),
         "fault": fault,
